@@ -195,6 +195,15 @@ impl World {
             "set" => self.op_set(&op),
             "fault" => self.op_fault(&op),
             "copy" => self.op_copy(&op),
+            "world.reset" => {
+                // boundary between two worlds of one run in a run-level replay: everything the
+                // SIMULATION holds is dropped; whatever the LIBRARY kept in the process stays
+                self.slots.clear();
+                self.objs = crate::objs::Objs::default();
+                self.used_scalars.clear();
+                self.observed.clear();
+                Ok(json!({}))
+            }
             "assert.eq" => self.op_assert(&op),
             n if n.starts_with("sm2.") => crate::ops_sm2::exec(self, n, &op),
             n if n.starts_with("zuc.") => crate::ops_zuc::exec(self, n, &op),
